@@ -171,8 +171,8 @@ P['C16']={
  "locks":True,
  "kinds":["guard","lockorder","lockbalance","pre@call","cover"],
  "refines":[MS+m for m in METHS]+[RS+m for m in METHS]+["oidc.sessionStoreFactory.Get", T+"LoadTLSConfig", "oidc.DefaultJWKSProvider.Get"],
- "functions":[T+"LoadTLSConfig",T+"updateCA","k8s.SecretController.Reconcile","server.ExtAuthZFilter.Check",H+"Process",H+"redirectToIDP",H+"retrieveTokens",H+"refreshToken","http.NewHTTPClient","oidc.DefaultJWKSProvider.fetchStatic","oidc.NewRedisStore","oidc.NewMemoryStore","internal.FileWatcher.WatchFile"],
- "sweep":["oidc.GetWellKnownConfig","authz.loadWellKnownConfig","oidc.memoryStore.RemoveAllExpired","internal.Logger"],
+ "functions":["oidc.memoryStore.RemoveAllExpired",T+"LoadTLSConfig",T+"updateCA","k8s.SecretController.Reconcile","server.ExtAuthZFilter.Check",H+"Process",H+"redirectToIDP",H+"retrieveTokens",H+"refreshToken","http.NewHTTPClient","oidc.DefaultJWKSProvider.fetchStatic","oidc.NewRedisStore","oidc.NewMemoryStore","internal.FileWatcher.WatchFile"],
+ "sweep":["oidc.GetWellKnownConfig","authz.loadWellKnownConfig","internal.Logger"],
  "required":[MS+"GetTokenResponse:guard:internal_oidc_memoryStore.sessions.mapread", MS+"SetTokenResponse:guard:internal_oidc_memoryStore.sessions.mapwrite", MS+"RemoveSession:lockbalance:", MS+"GetTokenResponse:lockorder:acquire", T+"LoadTLSConfig:guard:internal_tlsConfigPool.configs.mapread", T+"LoadTLSConfig:guard:internal_tlsConfigPool.configs.mapwrite", T+"updateCA:guard:crypto_tls_Config.RootCAs.frozen-write", "k8s.SecretController.Reconcile:guard:config_gen_go_v1_oidc_OIDCConfig.ClientSecretConfig.frozen-write", "oidc.GetWellKnownConfig:guard:internal_oidc_wellKnownConfigs", "authz.loadWellKnownConfig:guard:config_gen_go_v1_oidc_OIDCConfig.TokenUri.frozen-write", H+"Process:lockbalance:", "internal.FileWatcher.WatchFile:lockbalance:", "internal.FileWatcher.WatchFile:guard:internal_FileWatcher.watchers.mapwrite"],
  "note":"lock discipline over a hand-written inventory of shared locations: guarded locations are touched only under their lock, frozen locations are never written once shared, locks are never nested and every function returns with the locks it was entered with"}
 K="k8s.SecretController."
